@@ -10,6 +10,7 @@ Model:  Peg/Op.lean   `Op.run`  = peg_rule, opcode by opcode, threading the muta
 import JanetModel.Peg.Lemmas
 import JanetModel.Peg.Bounds
 import JanetModel.Peg.Entry
+import JanetModel.Peg.ReplaceLemmas
 
 namespace JanetModel.Props.C12
 open JanetModel.Peg
@@ -209,6 +210,72 @@ theorem find_first_error (m : Matcher) (len start : Nat) (e : Err) (i : Nat) (hi
     have hl : len - (start + 1) = n := by omega
     rw [hl] at this
     simp [hn', findLoop, h0, bind, Except.bind, this]
+
+/-! ### replace / replace-all agree with repeated matching (closed form `replSpec`, Peg/Entry.lean) -/
+
+/-- `peg/replace-all` (`one = false`) and `peg/replace` (`one = true`): the output is the bytes before `start`, then, walking
+    the positions, unmatched bytes copied and `g (matched text) captures` at every position where a single match attempt
+    succeeds, continuing at the end of the match, or one byte further (copying that byte) after an empty match; `replace`
+    stops after the first hit and copies the rest.  `f` describes the single attempts on `[start, len)` (no error raised
+    there), `hmono` is what `never_reads_outside` gives for the PEG matcher (a match never ends before it starts). -/
+theorem replace_agrees_with_repeated_match_gen (m : Matcher) (f : Nat → Option (Nat × List Val))
+    (g : List Nat → List Val → List Nat) (text : List Nat) (subst : Val) (one : Bool) (start : Nat)
+    (hm : ∀ i, start ≤ i → i < text.length → m i = .ok (f i))
+    (hmono : ∀ i e caps, f i = some (e, caps) → i ≤ e)
+    (hsub : ∀ mt caps, substitute subst mt caps = .ok (g mt caps)) :
+    pegReplace m text subst one start = .ok (replSpec f g text one start) := by
+  obtain ⟨o, t', h1, h2⟩ := replaceLoop_spec m f g text subst one hmono hsub (text.length + 1 - start) start 0 []
+    (Nat.zero_le _) (Nat.le_refl _) hm
+  simp only [pegReplace, h1, bind, Except.bind, replSpec]
+  have h3 : o ++ text.drop t' = text.take start ++ replSpecGo f g text one (text.length + 1 - start) start := by
+    rw [h2]; simp [sl]
+  by_cases ht : t' < text.length
+  · rw [if_pos ht, h3]
+  · rw [if_neg ht]
+    have : text.drop t' = [] := List.drop_eq_nil_of_le (by omega)
+    rw [this, List.append_nil] at h3
+    rw [h3]
+
+theorem replace_all_agrees_with_repeated_match (m : Matcher) (f : Nat → Option (Nat × List Val))
+    (g : List Nat → List Val → List Nat) (text : List Nat) (subst : Val) (start : Nat)
+    (hm : ∀ i, start ≤ i → i < text.length → m i = .ok (f i))
+    (hmono : ∀ i e caps, f i = some (e, caps) → i ≤ e)
+    (hsub : ∀ mt caps, substitute subst mt caps = .ok (g mt caps)) :
+    pegReplace m text subst false start = .ok (replSpec f g text false start) :=
+  replace_agrees_with_repeated_match_gen m f g text subst false start hm hmono hsub
+
+theorem replace_agrees_with_repeated_match (m : Matcher) (f : Nat → Option (Nat × List Val))
+    (g : List Nat → List Val → List Nat) (text : List Nat) (subst : Val) (start : Nat)
+    (hm : ∀ i, start ≤ i → i < text.length → m i = .ok (f i))
+    (hmono : ∀ i e caps, f i = some (e, caps) → i ≤ e)
+    (hsub : ∀ mt caps, substitute subst mt caps = .ok (g mt caps)) :
+    pegReplace m text subst true start = .ok (replSpec f g text true start) :=
+  replace_agrees_with_repeated_match_gen m f g text subst true start hm hmono hsub
+
+/-- the side condition `hmono` holds for the PEG matcher itself: a successful attempt at `i ≤ |text|` ends in `[i, |text|]` -/
+theorem match_attempt_end_in_range {ρ : Type} (E : Env) (fetch : ρ → Option (Instr ρ)) (main : ρ) (fuel guard i e : Nat)
+    (caps : List Val) (hi : i ≤ E.text.length) (h : denMatcher E fetch main fuel guard i = .ok (some (e, caps))) :
+    i ≤ e ∧ e ≤ E.text.length := by
+  have hb := (den_never_reads_outside E fetch fuel main (initSt E guard) i (Nat.le_refl _) hi).2
+  simp only [denMatcher] at h
+  revert h hb
+  cases Den.run E fetch fuel main (initSt E guard) i with
+  | error e' => intro h; simp at h
+  | ok v =>
+    cases v with
+    | none => intro h; simp at h
+    | some pd =>
+      obtain ⟨p, d⟩ := pd
+      intro h hb
+      simp only [Except.ok.injEq, Option.some.injEq, Prod.mk.injEq] at h
+      have := hb p d rfl
+      rw [← h.1]; exact this
+
+/-- examples: "" replaced by "X" in "ab" gives "XaXb" (empty matches: byte copied, advance by one, nothing tried at the end);
+    every (any "b") in "abbc" bracketed -/
+example : replSpec (fun i => some (i, [])) (fun _ _ => [88]) [97, 98] false 0 = [88, 97, 88, 98] := by decide
+example : replSpec (fun i => if i == 1 then some (3, []) else some (i, [])) (fun mt _ => [91] ++ mt ++ [93]) [97, 98, 98, 99] false 0
+    = [91, 93, 97, 91, 98, 98, 93, 91, 93, 99] := by decide
 
 /-! ### non-vacuity and the witness for the defect on the pinned tree -/
 
